@@ -116,7 +116,7 @@ func zzFragInvariant(f *FragmentBuffer, restSize, restCount int) {
 // (it never exceeds max(previous value, fragmentBufferMaxCount)); a buffer at either cap refuses the record
 // and stores nothing.
 //
-//symgo:entry covers=stored,overflow_refused,rejected,retransmit,duplicate_ignored,new_message,two_stored paths=30000
+//symgo:entry covers=stored,overflow_refused,rejected,retransmit,duplicate_ignored,new_message,two_stored paths=30000 nonterm=violation
 func zzFragLimitsPushStep() {
 	f, restSize, restCount := zzFragArbitrary(4)
 	nbody := zzsymParam("FRAGLIM_NBODY")
@@ -168,7 +168,7 @@ func zzFragLimitsPushStep() {
 // "enforce the fragment count cap for every fragment of a record": Push tested the cap once per record, before
 // parsing, so a record with several (empty) fragments pushed at fragmentBufferMaxCount-1 overshot it.
 //
-//symgo:entry covers=at_cap_refused,below_cap_stored
+//symgo:entry covers=at_cap_refused,below_cap_stored nonterm=violation
 func zzFragLimitsCountCapStrict() {
 	f, _, _ := zzFragArbitrary(2)
 	n := 25
@@ -197,7 +197,7 @@ func zzFragLimitsCountCapStrict() {
 // was; a non-nil result removes exactly the message with the current sequence number and advances the current
 // sequence number by one.
 //
-//symgo:entry covers=popped,nil_absent,nil_incomplete
+//symgo:entry covers=popped,nil_absent,nil_incomplete nonterm=violation
 func zzFragLimitsPopStep() {
 	f, restSize, restCount := zzFragArbitrary(4)
 	cur := f.currentMessageSequenceNumber
@@ -228,7 +228,7 @@ func zzFragLimitsPopStep() {
 // an arbitrary sequence number. Proved: no panic; the invariant holds again with the current sequence number
 // max(old, argument) - every message below it is gone and its bytes/fragments are released; nothing is added.
 //
-//symgo:entry covers=advanced_dropped,advanced_kept,not_advanced
+//symgo:entry covers=advanced_dropped,advanced_kept,not_advanced nonterm=violation
 func zzFragLimitsAdvanceStep() {
 	f, restSize, restCount := zzFragArbitrary(4)
 	cur := f.currentMessageSequenceNumber
